@@ -90,6 +90,7 @@ def check(ctx):
     ctx.rule("R6", "the `$VAR` expansion of non-raw literals is one positional pass over the references of the original text", floor=2)
     ctx.rule("R5", "alias resolution only copies the user's arguments: no call other than a copy, the alias invocation or the recursion receives them; every list result carries them, behind the alias's own words", floor=10)
     ctx.rule("R9", "the argument list of every launch is built from fresh lists: nothing on the launch path edits in place (+=, append, extend, insert, item store ...) an object that outlives the call - the result of a memoised function or a module-level list - so one command's arguments cannot show up in the next command's argv", floor=1)
+    ctx.rule("R10", "decorator words are consumed from the front of the command only: what resolve_decorators stores back into self.cmd is a suffix of the old list (`self.cmd[k:]`), and where k is a loop counter the loop leaves at the first word that is not a decorator - a pass that filters decorator names out of the whole list makes an *argument* that happens to equal a decorator-alias name (`echo a @json b`, `grep '@thread' f`) vanish from argv and changes how the command runs", floor=1)
     ctx.rule("R4", "the argv hand-off in SubprocSpec only copies: the command list is written by the known resolvers and none of them (nor the stage constructors) splits, globs or expands an element", floor=8)
 
     g = grammar.load(ctx.repo, lalr=False)
@@ -568,6 +569,7 @@ def check(ctx):
         subs = [c for c in calls_in(ev) if isinstance(c.func, ast.Attribute) and c.func.attr == "sub" and len(c.args) >= 2 and not isinstance(c.args[0], ast.Constant)]
         ctx.ob("R6", "xonsh/tools.py:expandvars", "references are substituted in one positional pass (match loop with span splicing, or a single regex.sub with a callback)", bool(subs), key="expandvars|no-positional-pass", where=loc(ev))
     _fresh_argv(ctx)
+    _decorators_from_the_front(ctx)
 
 
 def _mode_on_path(fn, path):
@@ -633,6 +635,36 @@ def _shared_object_mutations(fn, shared_calls, shared_names):
                 if isinstance(t, ast.Subscript) and isinstance(t.value, ast.Name) and t.value.id in names:
                     out.append(n)
     return out
+
+
+def _decorators_from_the_front(ctx):
+    """R10: resolve_decorators stores back a suffix of the command list."""
+    SPF = "xonsh/procs/specs.py"
+    sp = ctx.repo.module(SPF)
+    fn = sp.func("SubprocSpec.resolve_decorators")
+    st = f"{SPF}:SubprocSpec.resolve_decorators"
+    stores = [a for a in walk_local(fn) if isinstance(a, (ast.Assign, ast.AugAssign)) and any(unparse(t) == "self.cmd" for t in (a.targets if isinstance(a, ast.Assign) else [a.target]))]
+    inplace = [c for c in calls_in(fn) if isinstance(c.func, ast.Attribute) and unparse(c.func.value) == "self.cmd" and c.func.attr in ("remove", "pop", "clear", "__delitem__")] + [d for d in walk_local(fn) if isinstance(d, ast.Delete) and any("self.cmd" in unparse(t) for t in d.targets)]
+    if not stores and not inplace:
+        raise AnalysisError(f"{st}: the command list is not written here any more")
+    for a in stores:
+        v = a.value
+        suffix = isinstance(v, ast.Subscript) and unparse(v.value) == "self.cmd" and isinstance(v.slice, ast.Slice) and v.slice.upper is None and v.slice.step is None and v.slice.lower is not None
+        why = None
+        if not suffix:
+            why = f"`{short(v, 50)}` is not a suffix `self.cmd[k:]` of the list"
+        elif isinstance(v.slice.lower, ast.Name):
+            k = v.slice.lower.id
+            loops = [l for l in walk_local(fn) if isinstance(l, ast.For) and k in {x.id for x in ast.walk(l.target) if isinstance(x, ast.Name)}]
+            if loops:
+                lp = loops[0]
+                leaves = any(isinstance(b, ast.Break) for i_ in walk_local(lp) if isinstance(i_, ast.If) for b in [y for br in (i_.orelse, i_.body) for x_ in br for y in ast.walk(x_)])
+                if not leaves:
+                    suffix, why = False, f"the loop over `{k}` never leaves at the first word that is not a decorator"
+        ctx.ob("R10", st, f"`{short(a, 50)}` keeps every word behind the leading decorators", suffix, key="resolve_decorators|not-a-suffix", where=loc(a), detail=why and why + ": a word in argument position that equals a decorator-alias name is taken out of argv")
+    for c in inplace:
+        front = isinstance(c, ast.Call) and c.func.attr == "pop" and c.args and const_value(c.args[0], None) == 0
+        ctx.ob("R10", st, f"`{short(c, 50)}` removes from the front only", front, key="resolve_decorators|removes-inside", where=loc(c))
 
 
 def _fresh_argv(ctx):
